@@ -115,7 +115,14 @@ class HistGen:
         name = w.fresh("B")
         sym = "-" if refless else w.fresh("b")
         q = "-" if quantum is None else rat(quantum)
-        op = ["decl_class", name, "-", sym, "1" if (sym != "-" and rng.random() < .5) else "0", q]
+        rname = "1" if (sym != "-" and rng.random() < .5) else "0"
+        # histories of valid declarations only: one base type in four is written
+        # as a subclass of an earlier base type (it is a type of its own)
+        parents = [n for n, c in w.classes.items()
+                   if "items" not in c and c["ref"] is not None and c["quantum"] is None]
+        if not self.with_invalid and not refless and quantum is None and parents and rng.random() < .25:
+            rname = f"sub:{rng.choice(parents)}:{rname}"
+        op = ["decl_class", name, "-", sym, rname, q]
         w.classes[name] = dict(dim={name: 1}, ref=None if refless else sym,
                                quantum=quantum, units=[] if refless else [sym])
         w.order.append(name)
